@@ -7,6 +7,7 @@ package documents
 import (
 	"context"
 
+	"github.com/yorkie-team/yorkie/api/converter"
 	"github.com/yorkie-team/yorkie/api/types"
 	"github.com/yorkie-team/yorkie/internal/zzvsym"
 	"github.com/yorkie-team/yorkie/pkg/document"
@@ -49,4 +50,42 @@ func (p *vPeer) SyncLosingResponse(ctx context.Context) {
 	_, err = packs.PushPull(ctx, p.be, p.project, p.info, p.refKey, vWirePack(p.doc.CreateChangePack()),
 		packs.PushPullOptions{Mode: types.SyncModePushPull, Status: document.StatusAttached})
 	zzvsym.Assert(err == nil, "pushpull-no-error")
+}
+
+// VerifAttachAnother attaches one more document with the client of p.
+func VerifAttachAnother(ctx context.Context, p *VerifPeer, docKey key.Key) *VerifPeer {
+	info, err := clients.FindActiveClientInfo(ctx, p.be, p.info.RefKey())
+	zzvsym.Assert(err == nil, "find-client-no-error")
+	actor, err := info.ID.ToActorID()
+	zzvsym.Assert(err == nil, "client-id-is-an-actor-id")
+	doc := document.New(docKey)
+	doc.SetActor(actor)
+	docInfo, err := FindOrCreateDocInfo(ctx, p.be, info, docKey, false)
+	zzvsym.Assert(err == nil, "find-or-create-doc-no-error")
+	info, err = clients.AttachDocument(ctx, p.be, info, docInfo, false)
+	zzvsym.Assert(err == nil, "attach-no-error")
+	q := &vPeer{be: p.be, project: p.project, info: info, doc: doc, refKey: docInfo.RefKey()}
+	q.pushPull(ctx, document.StatusAttached, false)
+	return q
+}
+
+// Remove removes the document, as the RemoveDocument handler does.
+func (p *vPeer) Remove(ctx context.Context) {
+	info, err := clients.FindActiveClientInfo(ctx, p.be, p.info.RefKey())
+	zzvsym.Assert(err == nil, "find-client-no-error")
+	p.info = info
+	pack := vWirePack(p.doc.CreateChangePack())
+	pack.IsRemoved = true
+	res, err := packs.PushPull(ctx, p.be, p.project, p.info, p.refKey, pack,
+		packs.PushPullOptions{Mode: types.SyncModePushPull, Status: document.StatusRemoved})
+	zzvsym.Assert(err == nil, "remove-no-error")
+	if err != nil {
+		return
+	}
+	pb, err := res.ToPBChangePack()
+	zzvsym.Assert(err == nil, "response-encode-no-error")
+	back, err := converter.FromChangePack(pb)
+	zzvsym.Assert(err == nil, "response-decode-no-error")
+	zzvsym.Assert(back.IsRemoved, "remove-response-carries-the-removed-flag")
+	zzvsym.Assert(p.doc.ApplyChangePack(back) == nil, "apply-remove-response-no-error")
 }
